@@ -119,6 +119,15 @@ public:
         }
     }
 
+#if defined(XALAN_C_VERIF_HOOKS)
+    // verification hook (add-only): number of objects currently checked out
+    typename XalanVector<ObjectType*>::size_type
+    verifNumObjectsOnStack() const
+    {
+        return m_numObjectsOnStack;
+    }
+#endif
+
     // Functors for various operations...
     CreateFunctorType   m_createFunctor;
 
